@@ -606,7 +606,9 @@ func c01Shapes() []c01Shape {
 		mkI("builtin-strtol16", true, "word", func(p *c01Prog, a *cN) *cN { return cCall("strtol", ctInt, a, cInt(16)) })
 		mkI("builtin-strtol8", false, "word", func(p *c01Prog, a *cN) *cN { return cCall("strtol", ctInt, a, cInt(8)) })
 		mkI("builtin-int-of-string", true, "nonspace", func(p *c01Prog, a *cN) *cN { return cCall("int", ctInt, a) })
-		mkI("builtin-int-of-float", false, "float", func(p *c01Prog, a *cN) *cN { return cCall("int", ctInt, a) })
+		// (int(float) is not offered: the compiler has no float-to-int
+		// conversion and refuses it, as Language.md allows: "If the type of x
+		// cannot be converted to an integer, a compile error is triggered")
 		mkI("builtin-len-tolower", false, "word", func(p *c01Prog, a *cN) *cN { return cBin("+", cCall("len", ctInt, cCall("tolower", ctString, a)), cInt(1)) })
 		mkI("builtin-timestamp", true, "none", func(p *c01Prog, a *cN) *cN { return cCall("timestamp", ctInt) })
 
